@@ -6,6 +6,7 @@ import (
 	"math/big"
 	"os"
 	"path/filepath"
+	"sort"
 	"strconv"
 	"strings"
 	"time"
@@ -13,8 +14,12 @@ import (
 	"github.com/btcsuite/btcd/btcec/v2"
 	"github.com/btcsuite/btcd/btcutil"
 	"github.com/btcsuite/btcd/btcutil/hdkeychain"
+	"github.com/btcsuite/btcd/chaincfg/chainhash"
+	"github.com/btcsuite/btcd/txscript"
+	"github.com/btcsuite/btcd/wire"
 	"github.com/btcsuite/btcwallet/waddrmgr"
 	"github.com/btcsuite/btcwallet/walletdb"
+	"github.com/btcsuite/btcwallet/wtxmgr"
 
 	"verifharness/core"
 	"verifharness/faultdb/puttap"
@@ -38,6 +43,7 @@ func (r *runner) reset() {
 	r.nextIdx, r.issuedAddr, r.originOf = map[string]uint32{}, map[string]string{}, map[string]string{}
 	r.impKeys, r.scripts = map[int]*big.Int{}, map[int][]byte{}
 	r.created, r.poison, r.pubPass, r.privPass = false, false, 0, 0
+	r.txRecorded, r.nTx = false, 0
 }
 
 func (r *runner) open() error {
@@ -203,6 +209,15 @@ func (r *runner) Exec(op string) (reply string, viol string) {
 		// C04_watch_only: no passphrase unlocks a watching-only manager
 		if r.mgr.WatchOnly() && (err == nil || !r.mgr.IsLocked()) {
 			v = append(v, "C04 key=watch-only.unlock-succeeds: Unlock succeeded on a watching-only manager")
+		}
+		// C04 (direct, model-independent): once unlocked, the script crypto key must be a real key — whatever the
+		// manager seals with it must not open under the publicly known all-zero secretbox key
+		if err == nil && !r.mgr.IsLocked() {
+			if ct, e := r.mgr.Encrypt(waddrmgr.CKTScript, []byte("c04-script-key-check")); e == nil {
+				if _, e := zeroKey.Decrypt(ct); e == nil {
+					v = append(v, "C04 key=cryptoKeyScript.zero-key-after-unlock: after Unlock the manager seals CKTScript data under the all-zero secretbox key (opens without any passphrase)")
+				}
+			}
 		}
 		return r.finish("ok", err, tap, v)
 	case "lock":
@@ -644,8 +659,98 @@ func (r *runner) Exec(op string) (reply string, viol string) {
 		return r.finish("ok", err, tap, v)
 	case "recreate":
 		return "ok || ", joinV(r.recreate(atou(kv["n"])))
+	case "rectx":
+		return r.recordTx(scope, kv["ref"])
 	}
 	return "bad-op", ""
+}
+
+var wtxNS = []byte("wtxmgr")
+
+// recordTx: the transaction store (second top-level namespace of the same database file) records an unmined
+// transaction paying to a wallet address, with its credit.  This is the moment from which C04 allows public key
+// material in the file — inside the wtxmgr namespace only.
+func (r *runner) recordTx(scope, ref string) (string, string) {
+	addr, h, ok := r.resolveRef(scope, ref)
+	if !ok || !h.chained {
+		return "bad-op", ""
+	}
+	desc := ckey(scope, h.acct, h.br, h.idx)
+	pkScript, err := txscript.PayToAddrScript(addr)
+	if err != nil {
+		return "bad-op", ""
+	}
+	r.nTx++
+	prev := chainhash.HashH(append(append([]byte("funding"), r.seed...), byte(r.nTx), byte(r.nTx>>8)))
+	tx := wire.NewMsgTx(2)
+	tx.AddTxIn(wire.NewTxIn(&wire.OutPoint{Hash: prev, Index: 0}, nil, nil))
+	tx.AddTxOut(wire.NewTxOut(100000+int64(r.nTx), pkScript))
+	rec, err := wtxmgr.NewTxRecordFromMsgTx(tx, time.Unix(1600000000+int64(r.nTx), 0))
+	if err != nil {
+		return "bad-op", ""
+	}
+	tapTx := &puttap.Tap{}
+	err = walletdb.Update(r.db, func(dbtx walletdb.ReadWriteTx) error {
+		ns := dbtx.ReadWriteBucket(wtxNS)
+		if ns == nil {
+			var err error
+			if ns, err = dbtx.CreateTopLevelBucket(wtxNS); err != nil {
+				return err
+			}
+			if err := wtxmgr.Create(puttap.Wrap(ns, tapTx)); err != nil {
+				return err
+			}
+		}
+		w := puttap.Wrap(ns, tapTx)
+		store, err := wtxmgr.Open(w, netParams)
+		if err != nil {
+			return err
+		}
+		if err := store.InsertTx(w, rec, nil); err != nil {
+			return err
+		}
+		return store.AddCredit(w, rec, nil, 0, false)
+	})
+	if err != nil {
+		return "err other || ", "C04 key=rectx.failed: " + err.Error()
+	}
+	r.txRecorded = true
+	// symbolic rendering of what wtxmgr wrote: records that show public key material / everything else
+	var v []string
+	rows := map[string]bool{}
+	for _, w := range tapTx.Writes {
+		if w.Kind != puttap.Put {
+			continue
+		}
+		var pubs []string
+		for _, buf := range [][]byte{w.Key, w.Value} {
+			for _, n := range r.reg.scan(buf, true) {
+				if n.secret {
+					v = append(v, fmt.Sprintf("C04 key=wtxmgr-secret.%s: wtxmgr Put(%s) carries %s in the clear", n.class, pathStr(w.Path), n.what))
+					continue
+				}
+				if strings.HasPrefix(n.what, "aid:") && !strings.HasSuffix(n.what, ")") {
+					pubs = append(pubs, "P:"+n.what)
+				}
+			}
+		}
+		if len(pubs) > 0 {
+			sort.Strings(pubs)
+			rows["wtxmgr|n:rec|n:raw+"+strings.Join(dedup(pubs), "+")] = true
+		} else {
+			rows["wtxmgr|n:rec|n:meta"] = true
+		}
+	}
+	if !rows["wtxmgr|n:rec|n:raw+P:aid:"+desc] {
+		v = append(v, "C04 key=rectx.no-address-in-record: the recorded transaction does not show the address id of "+desc+" (harness expectation)")
+	}
+	var out []string
+	for k := range rows {
+		out = append(out, k)
+	}
+	sort.Strings(out)
+	v = append(v, r.scanImage()...)
+	return "ok ||  ## " + strings.Join(out, " ;; "), joinV(dedup(v))
 }
 
 func (r *runner) issuedKnown(h *handle) bool {
